@@ -18,9 +18,9 @@ import (
 // AllocStats is what an allocation storm observed.
 type AllocStats struct {
 	Entities, Participants, Assets, TypeRegs, SessionsCreated int
-	OverlappingAllocations                                  int64
-	Findings                                                []*check.Finding
-	Inconclusive                                            []string
+	OverlappingAllocations                                    int64
+	Findings                                                  []*check.Finding
+	Inconclusive                                              []string
 }
 
 // AllocStorm: n connections, all in one session, allocate ids at once (entity
@@ -51,8 +51,8 @@ func AllocStorm(p *sut.Proc, n, rounds int, seed int64) *AllocStats {
 	typeByName := map[string]map[uint32]bool{}
 	nameByType := map[uint32]map[string]bool{}
 	type life struct {
-		sid, uuid      string
-		born, dying    int64 // logical times: join returned, close called
+		sid, uuid   string
+		born, dying int64 // logical times: join returned, close called
 	}
 	var lives []life
 	var clock, inFlight atomic.Int64
